@@ -49,6 +49,11 @@ def items(tier):
     for fmt in ("csc", "csr"):
         out.append(dict(kind="sparse", id="sparse-n2-std-herm-%s-zero" % fmt, n=2, gen=False, sigma="zero", nmodes=2, herm=True, fmt=fmt))
     out.append(dict(kind="sparse", id="sparse-n2-std-sym-csr-sym", n=2, gen=False, sigma="sym", nmodes=2, fmt="csr"))
+    # history on one module: a second response() with another shift / another B while the A signal still holds the same object
+    out.append(dict(kind="sparse", id="sparse-n2-std-herm-csc-sym-again", n=2, gen=False, sigma="sym", nmodes=2, herm=True, fmt="csc",
+                    again=True))
+    out.append(dict(kind="sparse", id="sparse-n2-gen-herm-csc-sym-again", n=2, gen=True, sigma="sym", nmodes=2, herm=True, fmt="csc",
+                    again=True))
     if not q:
         for k in (1, 3):
             out.append(dict(kind="sparse", id="sparse-n3-std-sym-k%d" % k, n=3, gen=False, sigma="sym", nmodes=k))
@@ -66,9 +71,9 @@ def _sym(V, name, n, symmetric):
     return A
 
 
-def _spd(V, n):
+def _spd(V, n, name="G"):
     """Symmetric positive definite B := G G^T + I for free G (pre-image of the class)."""
-    G = np.asarray(V.reals("G", (n, n)))
+    G = np.asarray(V.reals(name, (n, n)))
     B = G @ G.T
     for i in range(n):
         B[i, i] = B[i, i] + 1
@@ -207,7 +212,7 @@ def sc_sparse(V, P, cfg):
             # (not in ascending order: for complex Hermitian input scipy's eigsh hands back ARPACK's own order)
             W = wrap(np.array([R.of(2), R.of(1)], dtype=object))
             Q = wrap(np.array([[C(R.of(0), R.of(0)), C(R.of(1), R.of(0))], [C(R.of(1), R.of(0)), C(R.of(0), R.of(0))]], dtype=object))
-            assume_nonsingular(V, np.asarray(A), "A")
+            assume_nonsingular(V, np.asarray(A) - (sigma * Bm if cfg["sigma"] == "sym" else 0), "A - sigma B")
             factor.register("eig", (W, Q))
     if V.symbolic and not cfg.get("herm"):
         W = V.reals("W", n)
@@ -262,6 +267,27 @@ def sc_sparse(V, P, cfg):
             vt = call["OPinv"].rmatvec(r)
             ShH = wrap(Sh.T.copy()).conj() if cfg.get("herm") else Sh.T
             P.arrays_eq("OPinv^H:(A-sigma B)^H v == r", np.asarray(ShH) @ np.asarray(vt), np.asarray(r), kind="shift-invert-operator")
+            if cfg.get("again"):
+                # second response: new shift (public attribute) and, for generalised problems, a new B; same A object
+                sigma2 = V.real("sigma2", nonzero=True, default=-0.75)
+                m.sigma = sigma2
+                B2 = _spd(V, n, name="G2") if gen else None
+                if gen:
+                    sigs[1].state = sp(B2)
+                Bm2 = np.asarray(B2) if gen else np.eye(n, dtype=int).astype(object)
+                Sh2 = np.asarray(A) - sigma2 * Bm2
+                assume_nonsingular(V, Sh2, "A - sigma2 B2")
+                factor.register("eig", (W, Q))
+                m.response()
+                calls = getattr(c, "arpack_calls", [])
+                P.holds("second-response:one-more-arpack-call", len(calls) == 2, kind="arpack-arguments")
+                if len(calls) == 2:
+                    call2 = calls[-1]
+                    P.eq("second-response:sigma-passed", call2["sigma"], sigma2, kind="arpack-arguments")
+                    r2 = V.cplxs("r2", n) if cfg.get("herm") else V.reals("r2", n)
+                    v2 = call2["OPinv"].matvec(r2)
+                    P.arrays_eq("second-response:OPinv:(A-sigma B) v == r", Sh2 @ np.asarray(v2), np.asarray(r2),
+                                kind="shift-invert-operator")
         Wo_, Qo_ = np.asarray(Wo), np.asarray(Qo)
         P.holds("nmodes-returned", Wo_.shape == (nm,) and Qo_.shape == (n, nm), kind="shape")
         Bm = np.asarray(B) if gen else np.eye(n, dtype=int).astype(object)
@@ -407,6 +433,22 @@ def _replay_sparse(cfg, label, V):
         for i in range(len(W) - 1):
             if not np.real(W[i]) <= np.real(W[i + 1]) + 1e-12:
                 bad.append("order[%d]" % i)
+        if cfg.get("again"):
+            # second response on the same module: another shift (and another B), the A signal keeps its matrix object
+            sigma2 = sigma + 0.45 * (W0[5] - W0[4])
+            B2 = np.diag(np.linspace(1.5, 1.0, N)) if gen else np.eye(N)
+            m.sigma = sigma2
+            if gen:
+                sigs[1].state = mk(B2)
+            m.response()
+            W2, Q2 = np.asarray(m.sig_out[0].state), np.asarray(m.sig_out[1].state)
+            Wall2 = np.sort(spla.eigh(Ad, B2, eigvals_only=True))
+            closest2 = np.sort(Wall2[np.argsort(abs(Wall2 - sigma2))[:nm]])
+            ok2 = W2.shape == (nm,) and np.allclose(np.sort(np.real(W2)), closest2, rtol=1e-7, atol=1e-9)
+            if ok2:
+                ok2 = all(np.linalg.norm(Ad @ Q2[:, i] - W2[i] * (B2 @ Q2[:, i])) <= 1e-6 * np.linalg.norm(Ad) for i in range(nm))
+            if not ok2:
+                bad += ["second-response:OPinv", "second-response:sigma-passed", "second-response:one-more-arpack-call"]
     hit = [b for b in bad if label.startswith(b)]
     return dict(reproduced=bool(hit), detail=dict(failed=bad, W=np.real(W).tolist(), closest=closest.tolist(),
                                                   call=[dict(kind=c_["kind"], kw={k_: repr(v_)[:40] for k_, v_ in c_["kw"].items()}) for c_ in calls]))
